@@ -1,0 +1,115 @@
+//go:build verif
+
+// Contracts for the etcd-compatible endpoint, checked by /verif/kbv (build tag "verif").
+// Comments only.
+
+package etcd
+
+// ---- per-request ghost flags (C16, C18) ----
+// leader_checked: IsLeader() returned true for this request; synced: SyncReadRevision() returned
+// nil; shim_writes / shim_reads: calls into the backend shim made by this request.
+//@ ghost leader_checked Bool
+//@ ghost synced Bool
+//@ ghost shim_writes Int
+//@ ghost shim_reads Int
+//@ ghost forwarded Int
+
+//@ func service.PeerService.IsLeader() (result)
+//@   assumed
+//@   modifies ghost.leader_checked
+//@   ensures [flag] leader_checked == result
+//@ func service.PeerService.SyncReadRevision() (err)
+//@   assumed
+//@   modifies ghost.synced
+//@   ensures [flag] synced == (err == nil)
+//@ func service.PeerService.EtcdProxyEnabled() (result)
+//@   assumed
+//@   pure
+//@ func service.PeerService.Txn(ctx, txn) (resp, err)
+//@   assumed
+//@   modifies ghost.forwarded
+//@   ensures [forwarded] forwarded == old(forwarded)+1
+//@ func service.PeerService.Watch(ctx) (result, err)
+//@   assumed
+//@   modifies ghost.forwarded
+//@   ensures [forwarded] forwarded == old(forwarded)+1
+
+//@ func BackendShim.Create(ctx, put) (resp, err)
+//@   assumed
+//@   requires [leader-only] leader_checked
+//@   modifies ghost.shim_writes
+//@   ensures [counted] shim_writes == old(shim_writes)+1
+//@ func BackendShim.Delete(ctx, key, revision) (resp, err)
+//@   assumed
+//@   requires [leader-only] leader_checked
+//@   modifies ghost.shim_writes
+//@   ensures [counted] shim_writes == old(shim_writes)+1
+//@ func BackendShim.Update(ctx, rev, key, value, lease) (resp, err)
+//@   assumed
+//@   requires [leader-only] leader_checked
+//@   modifies ghost.shim_writes
+//@   ensures [counted] shim_writes == old(shim_writes)+1
+//@ func BackendShim.Compact(ctx, revision) (resp, err)
+//@   assumed
+//@   requires [leader-only] leader_checked
+//@   modifies ghost.shim_writes
+//@   ensures [counted] shim_writes == old(shim_writes)+1
+//@ func BackendShim.Get(ctx, r) (resp, err)
+//@   assumed
+//@   requires [after-sync] synced
+//@   modifies ghost.shim_reads
+//@   ensures [counted] shim_reads == old(shim_reads)+1
+//@ func BackendShim.List(ctx, r) (resp, err)
+//@   assumed
+//@   requires [after-sync] synced
+//@   modifies ghost.shim_reads
+//@   ensures [counted] shim_reads == old(shim_reads)+1
+//@ func BackendShim.Count(ctx, r) (resp, err)
+//@   assumed
+//@   requires [after-sync] synced
+//@   modifies ghost.shim_reads
+//@   ensures [counted] shim_reads == old(shim_reads)+1
+//@ func BackendShim.GetPartitions(ctx, r) (resp, err)
+//@   assumed
+//@   requires [after-sync] synced
+//@   modifies ghost.shim_reads
+//@   ensures [counted] shim_reads == old(shim_reads)+1
+
+// ---- the four transaction shapes Kubernetes issues (C16) ----
+// repeated fields decoded from the wire have no nil elements
+//@ pred wire_txn(txn) = txn != nil && forall(i, 0 <= i && i < len(txn.Compare), txn.Compare[i] != nil) && forall(i, 0 <= i && i < len(txn.Success), txn.Success[i] != nil) && forall(i, 0 <= i && i < len(txn.Failure), txn.Failure[i] != nil)
+
+//@ pred put_of(op) = ite(typeis(op.Request, "*etcdserverpb.RequestOp_RequestPut") && asptr(op.Request, "*etcdserverpb.RequestOp_RequestPut") != nil, asptr(op.Request, "*etcdserverpb.RequestOp_RequestPut").RequestPut, nil)
+//@ pred get_of(op) = ite(typeis(op.Request, "*etcdserverpb.RequestOp_RequestRange") && asptr(op.Request, "*etcdserverpb.RequestOp_RequestRange") != nil, asptr(op.Request, "*etcdserverpb.RequestOp_RequestRange").RequestRange, nil)
+//@ pred del_of(op) = ite(typeis(op.Request, "*etcdserverpb.RequestOp_RequestDeleteRange") && asptr(op.Request, "*etcdserverpb.RequestOp_RequestDeleteRange") != nil, asptr(op.Request, "*etcdserverpb.RequestOp_RequestDeleteRange").RequestDeleteRange, nil)
+//@ pred modrev_of(c) = ite(typeis(c.TargetUnion, "*etcdserverpb.Compare_ModRevision") && asptr(c.TargetUnion, "*etcdserverpb.Compare_ModRevision") != nil, asptr(c.TargetUnion, "*etcdserverpb.Compare_ModRevision").ModRevision, 0)
+
+// "mod_revision(key) == rev" on exactly one key (no range_end)
+//@ pred cmp_mod_eq(c) = c.Target == etcdserverpb.Compare_MOD && c.Result == etcdserverpb.Compare_EQUAL && len(c.RangeEnd) == 0
+
+//@ pred shape_create(txn) = len(txn.Compare) == 1 && cmp_mod_eq(txn.Compare[0]) && modrev_of(txn.Compare[0]) == 0 && len(txn.Failure) == 0 && len(txn.Success) == 1 && put_of(txn.Success[0]) != nil && bytes_eq(txn.Compare[0].Key, put_of(txn.Success[0]).Key)
+//@ pred shape_update(txn) = len(txn.Compare) == 1 && cmp_mod_eq(txn.Compare[0]) && len(txn.Success) == 1 && put_of(txn.Success[0]) != nil && len(txn.Failure) == 1 && get_of(txn.Failure[0]) != nil && bytes_eq(txn.Compare[0].Key, put_of(txn.Success[0]).Key) && bytes_eq(txn.Compare[0].Key, get_of(txn.Failure[0]).Key) && len(get_of(txn.Failure[0]).RangeEnd) == 0
+//@ pred shape_delete_guarded(txn) = len(txn.Compare) == 1 && cmp_mod_eq(txn.Compare[0]) && len(txn.Failure) == 1 && get_of(txn.Failure[0]) != nil && len(txn.Success) == 1 && del_of(txn.Success[0]) != nil && bytes_eq(txn.Compare[0].Key, del_of(txn.Success[0]).Key) && len(del_of(txn.Success[0]).RangeEnd) == 0 && bytes_eq(txn.Compare[0].Key, get_of(txn.Failure[0]).Key) && len(get_of(txn.Failure[0]).RangeEnd) == 0
+//@ pred shape_delete_unguarded(txn) = len(txn.Compare) == 0 && len(txn.Failure) == 0 && len(txn.Success) == 2 && get_of(txn.Success[0]) != nil && del_of(txn.Success[1]) != nil && bytes_eq(get_of(txn.Success[0]).Key, del_of(txn.Success[1]).Key) && len(del_of(txn.Success[1]).RangeEnd) == 0 && len(get_of(txn.Success[0]).RangeEnd) == 0
+
+//@ func isCreate(txn) (result)
+//@   props C16
+//@   requires wire_txn(txn)
+//@   ensures [sound] result != nil ==> shape_create(txn) && result == put_of(txn.Success[0])
+//@   ensures [complete] shape_create(txn) ==> result != nil
+
+//@ func isDelete(txn) (rev, key, ok)
+//@   props C16
+//@   requires wire_txn(txn)
+//@   ensures [sound] ok ==> (shape_delete_unguarded(txn) && rev == 0 && key == del_of(txn.Success[1]).Key) || (shape_delete_guarded(txn) && rev == modrev_of(txn.Compare[0]) && key == del_of(txn.Success[0]).Key)
+//@   ensures [complete] shape_delete_unguarded(txn) || shape_delete_guarded(txn) ==> ok
+
+//@ func isUpdate(txn) (rev, key, value, lease, ok)
+//@   props C16
+//@   requires wire_txn(txn)
+//@   ensures [sound] ok ==> shape_update(txn) && rev == modrev_of(txn.Compare[0]) && bytes_eq(key, put_of(txn.Success[0]).Key) && value == put_of(txn.Success[0]).Value && lease == put_of(txn.Success[0]).Lease
+//@   ensures [complete] shape_update(txn) ==> ok
+
+//@ func isSingleKey(rangeEnd) (result)
+//@   props C16
+//@   ensures [def] result == (len(rangeEnd) == 0)
